@@ -289,6 +289,8 @@ def run_model(header_lines, case_lines, timeout=600):
             done = l.split()
         elif l.startswith("PLATOK") or l.startswith("MASKSOK"):
             flags[l.split()[0]] = l.split()[2] == "true"
+    if done is not None and len(done) > 3:
+        flags["LAYOUTDIFF"] = int(done[3])
     ok = rc == 0 and done is not None and int(done[1]) == len(case_lines)
     return ok, bad, flags, out[-2000:]
 
